@@ -253,6 +253,8 @@ def _build_tree(rec, scratch):
             t = t.deepcopy()
         elif k == "name_unnamed":
             t.name_unnamed_nodes()
+        elif k == "special_name":
+            pass  # marker only: the previous rename used a newick meta character
         else:
             raise ValueError(k)
     return t
@@ -600,7 +602,7 @@ def gen_seq(rng, impl=None):
             ops.append(["rc"])
         elif r < 0.27 and cur > 1:
             ops.append(["feat", _j(_feat(rng, cur))])
-        elif r < 0.32:
+        elif r < 0.32 and not (impl == "new" and offset):
             ops.append(["copy", rng.random() < 0.7])
         else:
             op = rslice(rng, cur, allow_neg=mt in ("dna", "rna", "text", "protein"))
@@ -756,7 +758,7 @@ def gen_seqsdata(rng):
     return dict(family="seqsdata", coll=c, hclass=c["hclass"])
 
 
-def _rand_newick(rng, tips, lengths=True, internal_names=False):
+def _rand_newick(rng, tips, lengths=True, internal_names=False, root_name=False):
     nodes = list(tips)
     k = 0
     while len(nodes) > 1:
@@ -764,7 +766,7 @@ def _rand_newick(rng, tips, lengths=True, internal_names=False):
         rng.shuffle(nodes)
         grp, nodes = nodes[:take], nodes[take:]
         name = ""
-        if internal_names and rng.random() < 0.7:
+        if internal_names and rng.random() < 0.7 and (nodes or root_name):
             name = f"n{k}"
             k += 1
         lab = "(" + ",".join(grp) + ")" + name
@@ -774,12 +776,14 @@ def _rand_newick(rng, tips, lengths=True, internal_names=False):
     return nodes[0] + ";"
 
 
-def gen_tree(rng):
+def gen_tree(rng, safe=False):
     ntip = rng.randint(2, 7)
     tipnames = rng.choice([["a", "b", "c", "d", "e", "f", "g"], ["Human", "Chimp", "Mouse", "Rat", "Dog", "Cow", "Pig"], ["t_1", "t-2", "t.3", "t4", "t5", "t6", "t7"]])[:ntip]
     lengths = rng.random() < 0.8
     tips = [f"{t}:{rng.choice([0.1, 0.5, 1.0, 2.0, 0.333, 7])}" if lengths else t for t in tipnames]
-    nw = _rand_newick(rng, tips, lengths, internal_names=rng.random() < 0.5)
+    root_name = (not safe) and rng.random() < 0.15
+    nw = _rand_newick(rng, tips, lengths, internal_names=root_name or rng.random() < 0.5, root_name=root_name)
+    named_root = not nw.endswith(");")
     ops = []
     for _ in range(rng.choice([0, 1, 1, 2, 3])):
         r = rng.random()
@@ -794,18 +798,22 @@ def gen_tree(rng):
         elif r < 0.65:
             ops.append(["set_len", rng.choice(tipnames), rng.choice([0.0, 1.125, 5])])
         elif r < 0.72:
-            ops.append(["rename", rng.choice(tipnames), rng.choice(["x1", "new name", "q'z", "a:b", "w(1)"])])
+            newname = rng.choice(["x1", "new name", "x1", "new name", "a:b", "w(1)"]) if not safe else "x1"
+            ops.append(["rename", rng.choice(tipnames), newname])
+            if newname in ("a:b", "w(1)"):
+                ops.append(["special_name"])
             tipnames = None
             break
         elif r < 0.8:
             ops.append(["sorted"])
-        elif r < 0.88:
+        elif r < 0.88 and not safe:
             ops.append(["bifurcating"])
         elif r < 0.95 and ntip > 2:
             ops.append(["rooted_at", "__internal__"])
-        else:
+        elif not safe:
             ops.append(["name_unnamed"])
-    extra = ["lengths"] if lengths else ["nolengths"]
+            named_root = True
+    extra = (["lengths"] if lengths else ["nolengths"]) + (["named_root"] if named_root else [])
     return dict(family="tree", newick=nw, ops=ops, hclass=hist_class(ops, extra))
 
 
@@ -1108,7 +1116,7 @@ def gen_result(rng, heavy=False):
             elif q < 0.75:
                 v = gen_coll(rng)
             elif q < 0.85:
-                v = gen_tree(rng)
+                v = gen_tree(rng, safe=True)
             elif q < 0.92:
                 v = gen_seq(rng, impl="old")
             else:
@@ -1123,8 +1131,10 @@ def gen_result(rng, heavy=False):
     q = rng.random()
     if q < 0.5:
         lf = gen_lf(rng)
+        lf["name"] = None
         return dict(family="result", kind="model", name="m1", source="src.fa", lf=lf, ops=[], hclass="model:" + lf["hclass"])
     lf1 = gen_lf(rng)
+    lf1["name"] = None
     lf2 = dict(lf1)
     lf2["model"] = "HKY85" if lf1["model"] != "HKY85" else "GTR"
     lf2["rules"] = [r_ for r_ in lf1["rules"] if r_["par_name"] == "length"]
